@@ -868,17 +868,30 @@ snarf_fld(struct ical_vevent_s ve[static 1U],
 	case FLD_RDATE:
 		/* otherwise snarf */
 		with (struct dtlst_s l = snarf_dtlst(eof, vp, ep)) {
+			struct dtlst_s *tgt;
+
 			if (l.ndt == 0UL) {
 				break;
 			}
 			switch (fld) {
+			default:
 			case FLD_XDATE:
-				ve->xdat = l;
+				tgt = &ve->xdat;
 				break;
 			case FLD_RDATE:
-				ve->rdat = l;
+				tgt = &ve->rdat;
 				break;
 			}
+			if (tgt->ndt == 0UL) {
+				/* first list of its kind */
+				*tgt = l;
+				break;
+			}
+			/* a further EXDATE/RDATE line adds to what we've got */
+			for (size_t i = 0U; i < l.ndt; i++) {
+				add1_to_dtlst(tgt, l.dt[i]);
+			}
+			free(l.dt);
 		}
 		break;
 	case FLD_RRULE:
